@@ -343,6 +343,9 @@ def run(ctx, rep):
         rep.ob("T4", False, node, D, construct="%s: %s" % (exc, unparse(node)[:80]),
                witness="the derivation can raise %s in a reachable grammar state (transition undefined there); path: [%s]"
                % (exc, ", ".join(e.kind for e in st.tags)), nontrivial=True)
+    # what the decoder accepts for a symbol is a function of the symbol and the table in force, not of earlier tables
+    from rules.shared import check_history_independence
+    check_history_independence(ctx, rep, "T8")
     # T5 tables
     spec_b, spec_r = SPEC.branch_table(), SPEC.ring_table()
     fb, frg = m["tables"]["branch"], m["tables"]["ring"]
